@@ -21,10 +21,18 @@ Hypothesis R_bin : forall k a a' b b', R a a' -> R b b' -> R (binf C k a b) (bin
 Hypothesis R_un : forall k a a', R a a' -> R (unf C k a) (unf C k a').
 Hypothesis flagged_assoc : forall k, comm_of tb k = true -> forall a b c, R (binf C k (binf C k a b) c) (binf C k a (binf C k b c)).
 (* operator records of the table: flag and priority (0..99) *)
-Definition flagged : dbop -> Prop := table_op (comm_of tb).
+Definition flagged : dbop -> Prop := from_table tb.
+Lemma from_table_entry o : flagged o -> comm_of tb (bidx o) = bcomm o /\ prio_of tb (bidx o) = bprio o /\ is_bin tb (bidx o) = true.
+Proof.
+  intros (spec & bs & Hn & Hb & Hc & Hp). unfold comm_of, prio_of, is_bin. rewrite (nth_error_nth _ _ _ Hn), Hb. repeat split; congruence.
+Qed.
+Lemma flagged_table_op o : flagged o -> table_op (comm_of tb) o.
+Proof.
+  intros H. destruct (from_table_entry o H) as (Hc & Hp & _). split; [intros Hb; rewrite Hc; exact Hb|]. rewrite <- Hp. exact (prio_of_range tb Hwf_tb (bidx o)).
+Qed.
 Lemma flagged_op_assoc : forall o, flagged o -> bcomm o = true ->
   forall a b c, R (binf C (bidx o) (binf C (bidx o) a b) c) (binf C (bidx o) a (binf C (bidx o) b c)).
-Proof. intros o [Hc _] Hb. apply flagged_assoc. apply Hc. exact Hb. Qed.
+Proof. intros o H Hb. apply flagged_assoc. rewrite (proj1 (from_table_entry o H)). exact Hb. Qed.
 
 Variable vars : list str.      (* the variable list of the whole text *)
 Variable vals : list D.
@@ -52,8 +60,18 @@ Lemma mk_bop_ok k : is_bin tb k = true -> mk_bop tb k = Ok (dop k).
 Proof.
   unfold mk_bop, is_bin, dop, prio_of, comm_of, op_of. destruct (obin (nth k tb _)) as [bs|]; [reflexivity|discriminate].
 Qed.
-Lemma dop_flag k : flagged (dop k).
-Proof. split; [exact (fun H => H)|]. exact (prio_of_range tb Hwf_tb k). Qed.
+Lemma dop_flag k : is_bin tb k = true -> flagged (dop k).
+Proof.
+  unfold is_bin, flagged, from_table, dop, comm_of, prio_of. cbn [bidx bcomm bprio]. intros H.
+  destruct (nth_error tb k) as [spec|] eqn:En.
+  - rewrite (nth_error_nth _ _ _ En) in *. destruct (obin spec) as [bs|] eqn:Eb; [|discriminate]. exists spec, bs. repeat split; assumption.
+  - rewrite (nth_overflow tb _ (proj1 (nth_error_None tb k) En)) in H. discriminate.
+Qed.
+Lemma wf_rest_bins : forall l : list (nat * atom (D:=D)), wf_rest tb l = true -> forall k, In k (map fst l) -> is_bin tb k = true.
+Proof.
+  induction l as [|[o b] tl IH]; intros Hw k Hk; [destruct Hk|]. cbn [wf_rest] in Hw. apply andb_prop in Hw. destruct Hw as [Hw Ht]. apply andb_prop in Hw. destruct Hw as [Ho _].
+  destruct Hk as [<-|Hk]; [exact Ho|exact (IH Ht k Hk)].
+Qed.
 
 (* precedence evaluation over the operator records of a level = the reference evaluation of a chain of values *)
 Definition recs (l : list (nat * D)) : list (fop * D) := map (fun p => (to_fop (dop (fst p)), snd p)) l.
@@ -299,7 +317,7 @@ Proof.
     assert (Hnodes : Forall nodeok (node0 :: ns)).
     { constructor; [exact Hok0|]. clear - Hall. induction Hall as [|? ? ? ? (H & _ & _) _ IH]; constructor; assumption. }
     destruct (new_deepex_ok (node0 :: ns) (map dop (map fst rest)) us Hl Hnodes) as (e & He & Hwe & Hr & Hdv).
-    { intros o Ho. apply in_map_iff in Ho. destruct Ho as (k & <- & _). apply dop_flag. }
+    { intros o Ho. apply in_map_iff in Ho. destruct Ho as (k & <- & Hk). apply dop_flag. exact (wf_rest_bins rest Hwr k Hk). }
     assert (Hfin : dparse f1 (Some t1) endtoks vars (rev ns ++ [node0]) (rev (map dop (map fst rest))) us = Ok (e, remaining)).
     { destruct f1 as [|f1']; [lia|]. cbn [Deep.dparse].
       assert (Erev : rev (rev ns ++ [node0]) = node0 :: ns) by (rewrite rev_app_distr, rev_involutive; reflexivity).
